@@ -184,6 +184,9 @@ def leaves(scratch=None):
     add(INT, "LessThan(2)", lambda: M.LessThan(2), lambda v: v < 2)
     add(INT, "IsInstance(int)", lambda: M.IsInstance(int), lambda v: isinstance(v, int))
     add(INT, "IsInstance(str, bytes)", lambda: M.IsInstance(str, bytes), lambda v: isinstance(v, (str, bytes)))
+    add(INT, "IsInstance(str | bytes)", lambda: M.IsInstance(str | bytes), lambda v: isinstance(v, (str, bytes)))
+    add(STR, "IsInstance(int | bytes)", lambda: M.IsInstance(int | bytes), lambda v: isinstance(v, (int, bytes)))
+    add(STR, "MatchesPredicate(str.isupper, '%s')", lambda: M.MatchesPredicate(str.isupper, "%s"), lambda v: v.isupper())
     add(INT, "MatchesPredicate(is_even)", lambda: M.MatchesPredicate(is_even, "%s is not even"), lambda v: v % 2 == 0)
     add(INT, "Is(None)", lambda: M.Is(None), lambda v: v is None)
     # str
